@@ -1,9 +1,81 @@
-(* C25 — property theorems only. *)
+(* C25 — property theorems only.  Each is closed by `exact <lemma>` and followed by Print Assumptions.
+   Vocabulary (Spec.v): `run ops` = (buffer state, every callback the sink received, in order) after the
+   history `ops` of upstream callbacks / restarts / consumer pulls; `sink_view evs` = what the sink holds after
+   callbacks evs; `upstream_view ops` = fold of the updates received since the last restart;
+   `resync_pending ops` = a restart happened and no in-sync was reported since; `sent ops` = upserts received
+   since the last restart; `ill ops` = keys upstream deleted although its current connection never had them.
+   The Go map iteration order used when deletions are synthesized is the `ord` argument of every OpStatus
+   inside `ops`, hence universally quantified.  Examples: Proofs.v (ex_converges_hyps, ex_insync_pull). *)
 From Coq Require Import List NArith Bool.
 From Verif.C25 Require Import Model Spec Proofs.
 Import ListNotations.
 Open Scope N_scope.
 
-Theorem c25_restart_clears_queue : forall st, q (on_restart st) = [] /\ ns (on_restart st) = Some (live st).
-Proof. exact restart_clears_queue. Qed.
-Print Assumptions c25_restart_clears_queue.
+(* Once the latest connection has reported in-sync (or there never was a restart) and the queue is drained,
+   the sink's view equals the latest connection's view. *)
+Theorem c25_converges : forall ops,
+  resync_pending ops = false -> q (fst (run ops)) = [] ->
+  forall k, sink_view (snd (run ops)) k = upstream_view ops k.
+Proof. exact converges. Qed.
+Print Assumptions c25_converges.
+
+(* the same, with the hypothesis spelled out on the history *)
+Theorem c25_converges_after_insync : forall pre ord post,
+  no_restart post = true ->
+  let ops := pre ++ OpStatus InSync ord :: post in
+  q (fst (run ops)) = [] ->
+  forall k, sink_view (snd (run ops)) k = upstream_view ops k.
+Proof. exact converges_after_insync. Qed.
+Print Assumptions c25_converges_after_insync.
+
+(* resources missing from the new connection are deleted; no stale value survives *)
+Theorem c25_missing_deleted : forall ops k,
+  resync_pending ops = false -> q (fst (run ops)) = [] ->
+  upstream_view ops k = None -> sink_view (snd (run ops)) k = None.
+Proof. exact missing_deleted. Qed.
+Print Assumptions c25_missing_deleted.
+
+(* resources the new connection has (changed or not) are held with exactly its value: nothing is lost *)
+Theorem c25_unchanged_kept : forall ops k v,
+  resync_pending ops = false -> q (fst (run ops)) = [] ->
+  upstream_view ops k = Some v -> sink_view (snd (run ops)) k = Some v.
+Proof. exact unchanged_kept. Qed.
+Print Assumptions c25_unchanged_kept.
+
+(* over the whole stream ever delivered: an upsert is typed New iff the sink did not hold the key at that
+   moment, Updated iff it did *)
+Theorem c25_new_vs_updated : forall ops pre u v post,
+  snd (run ops) = pre ++ IUpd u :: post -> u_val u = Some v ->
+  (u_type u = UTNew <-> sink_view pre (u_key u) = None) /\
+  (u_type u = UTUpdated <-> sink_view pre (u_key u) <> None).
+Proof. exact new_vs_updated_stream. Qed.
+Print Assumptions c25_new_vs_updated.
+
+(* a deletion is delivered only for a key the sink holds, unless upstream itself sent a deletion for a key
+   its current connection never had (passed through unchanged) *)
+Theorem c25_deletes_only_held : forall ops n its st' pre u post,
+  pull n (fst (run ops)) = (its, st') -> its = pre ++ IUpd u :: post -> u_val u = None ->
+  sink_view (snd (run ops) ++ pre) (u_key u) <> None \/ In (u_key u) (ill ops).
+Proof. exact deletes_only_held. Qed.
+Print Assumptions c25_deletes_only_held.
+
+(* when the sink is told in-sync, everything it holds was (re)sent by the latest connection: the deletions
+   for vanished resources have been delivered before the in-sync status *)
+Theorem c25_deletes_before_insync : forall ops n its st' pre post,
+  pull n (fst (run ops)) = (its, st') -> its = pre ++ IStatus InSync :: post ->
+  forall k v, sink_view (snd (run ops) ++ pre) k = Some v -> In (k, v) (sent ops).
+Proof. exact nothing_stale_at_insync. Qed.
+Print Assumptions c25_deletes_before_insync.
+
+(* refinement facts: liveResourceKeys is exactly the sink's key set; keyToPendingUpdate mirrors the queue
+   and no key has two updates in flight *)
+Theorem c25_live_is_sink_domain : forall ops k,
+  mem k (live (fst (run ops))) = true <-> sink_view (snd (run ops)) k <> None.
+Proof. exact live_is_sink_domain. Qed.
+Print Assumptions c25_live_is_sink_domain.
+
+Theorem c25_queue_deduped : forall ops,
+  NoDup (qkeys (q (fst (run ops)))) /\
+  forall k, mem k (pend (fst (run ops))) = true <-> In k (qkeys (q (fst (run ops)))).
+Proof. exact queue_deduped. Qed.
+Print Assumptions c25_queue_deduped.
